@@ -14,8 +14,8 @@ Z3_TIMEOUT_MS = int(os.environ.get('PYVC_Z3_TIMEOUT_MS', '20000'))
 CVC5_TIMEOUT_S = int(os.environ.get('PYVC_CVC5_TIMEOUT_S', '40'))
 Z3NEW_TIMEOUT_S = int(os.environ.get('PYVC_Z3NEW_TIMEOUT_S', '30'))
 NPROC = int(os.environ.get('PYVC_NPROC', '14'))
-PATIENT_CVC5_S = int(os.environ.get('PYVC_PATIENT_CVC5_S', '240'))
-PATIENT_Z3_MS = int(os.environ.get('PYVC_PATIENT_Z3_MS', '120000'))
+PATIENT_CVC5_S = int(os.environ.get('PYVC_PATIENT_CVC5_S', '120'))
+PATIENT_Z3_MS = int(os.environ.get('PYVC_PATIENT_Z3_MS', '60000'))
 
 
 def to_smt2(assumptions, goal, expect):
